@@ -89,6 +89,10 @@ def run(ctx, args, race_only=False):
             # the consensus record written under the topology lock is what keeps C21: the same model with the
             # record written after the lock was released (LockedMarker = FALSE) loses the marker
             ctx.tlc_mc(d, "MC_Node.tla", "MC_Node_P2_Unlocked.cfg", workers=4, timeout=600, expect_violation="C21Inv", count=False)
+    if not race_only and "C22-1" not in all_known:
+        # loadState completing an interrupted node acceptance is what keeps C22 in scenario A: the same
+        # model without it (AcceptRepair = FALSE) cannot restart
+        ctx.tlc_mc(d, "MC_Node.tla", "MC_Node_A_NoRepair.cfg", workers=4, timeout=600, expect_violation="C22Inv", count=False)
     if all_known and not race_only:
         if "C22-1" in all_known:
             ctx.tlc_mc(d, "MC_Node.tla", "MC_Node_A_None.cfg", workers=4, timeout=600, expect_violation="Inv", count=False)
